@@ -100,8 +100,9 @@ def predictor_obligations(rep):
                                    integration='mindsdb', table=SymObj(None, 'model_ident', prov='param'), aliases=[('m',)])
                 q = SymObj(None, 'query_in', prov='param')
                 q.known_not_none = True
-                uv = [SymObj(None, f'using_value{i}', prov='param') for i in range(4)]
-                q.fields['using'] = None if using == 'none' else {'Foo': uv[0], 'm.Bar': uv[1], 'other.Baz': uv[2], 'partition_size': uv[3]}
+                uv = [SymObj(None, f'using_value{i}', prov='param') for i in range(7)]
+                q.fields['using'] = None if using == 'none' else {'Foo': uv[0], 'm.Bar': uv[1], 'other.Baz': uv[2], 'partition_size': uv[3],
+                                                                   'm.Engine.Temperature': uv[4], 'm.Engine.Top_p': uv[5], 'other.Engine.Top_p': uv[6]}
                 ex.path_state.update(stack=stack, prev=prev, older=older, added=added, combo=combo, conds=conds, origs=origs, vals=vals, uv=uv, item=item)
                 return [selfo, item, q], {}
 
@@ -147,8 +148,9 @@ def predictor_obligations(rep):
                         return 'params invented'
                 else:
                     uv = st['uv']
-                    if not isinstance(params, dict) or set(params) != {'foo', 'bar'} or params['foo'] is not uv[0] or params['bar'] is not uv[1]:
-                        return f'USING options reach the model as {params!r}, expected lower-cased keys of this model only, values unchanged'
+                    exp = {'foo': uv[0], 'bar': uv[1], 'engine.temperature': uv[4], 'engine.top_p': uv[5]}
+                    if not isinstance(params, dict) or set(params) != set(exp) or any(params[k_] is not exp[k_] for k_ in exp):
+                        return f'USING options reach the model as {params!r}, expected lower-cased keys of this model only (alias prefix removed, rest of a dotted name kept), values unchanged'
                     if psize is not uv[3]:
                         return 'partition_size is not taken out of the params and passed to the partitioning'
                 return None
@@ -342,6 +344,16 @@ def replay_model(sql):
     # first: a model whose target name contains the names of other model columns (string and list form of to_predict)
     from mindsdb_sql import parse_sql
     from mindsdb_sql.planner.query_planner import QueryPlanner
+    # USING options: own-alias prefix removed, the rest of a dotted name kept, keys lower-cased, foreign-alias options dropped
+    sql3 = "SELECT * FROM int1.tbl1 AS t JOIN mindsdb.pred AS m USING m.Engine.Temperature = 5, m.engine.top_p = 9, m.Bar = 2, Foo = 1, other.baz = 3"
+    try:
+        p3 = plan(sql3)
+        ap3 = [s_ for s_ in p3.steps if isinstance(s_, ApplyPredictorStep)]
+        want3 = {'engine.temperature': 5, 'engine.top_p': 9, 'bar': 2, 'foo': 1}
+        if not (len(ap3) == 1 and ap3[0].params == want3):
+            return {'input': sql3, 'dialect': 'mindsdb', 'fires': True, 'observed': f'params={ap3[0].params if ap3 else None}', 'expected': repr(want3)}
+    except Exception:
+        pass
     for tp in ('price', ['price']):
         sql2 = "SELECT * FROM int1.tbl1 AS t JOIN mindsdb.pred AS m WHERE m.ice = 1 AND m.pricey = 3 AND m.Price = 10 AND t.a = 2"
         try:
@@ -414,8 +426,15 @@ def bounded(rep, tier):
         for a in ap:
             if a.row_dict and 'a' in a.row_dict:
                 fails.setdefault(f'C14.bounded.table-filter-as-arg.{name}', (sql, f'table condition became model argument: {a.row_dict}'))
+    # a comparison in the ON clause of two data tables joined to a model: pushed into the fetch only as a top-level conjunct
+    from contracts import C08
+    n_on, on_fails = C08.on_path_analysis(tier, prefix='C14', tail=' JOIN mindsdb.pred AS m')
+    n += n_on
+    fails.update(on_fails)
     rep.bounded_evals = n
-    rep.bounded_rule = 'model-join scenarios x 5 catalogs: one ApplyPredictorStep per model reference; model-argument column never in a fetch; table-column conditions never in row_dict'
+    rep.bounded_rule = ('model-join scenarios x 5 catalogs: one ApplyPredictorStep per model reference; model-argument column never in a fetch; table-column conditions never in row_dict; '
+                        'every path of connectives (AND/OR, NOT, function, IS NULL; depth <= 2, thorough 3) above a comparison in the ON clause of an inner / left join of two tables '
+                        'followed by a model: pushed into the fetch only if ON = true implies it (three-valued truth table)')
     for cid, (inp, obs) in sorted(fails.items()):
         rep.add_bounded(Bounded(cid, False, inp, obs, 'model gets its arguments only', bound='scenario family'))
 
@@ -423,6 +442,8 @@ def bounded(rep, tier):
 def check(rep, tier):
     from vlib import statecensus
     statecensus.obligations(rep, 'C14', 'planner')
+    from vlib import walkerdep
+    walkerdep.obligations(rep, tier, 'C14')
     rep.dropped = 'method bodies read with ast.parse; nested visitor closures executed by pysym'
     rep.assume('C13 walker contract (every comparison is shown to the collecting visitor)', 'execution semantics of ApplyPredictorStep as documented in steps.py')
     rep.trust('pysym executor')
